@@ -35,7 +35,7 @@ theorem currentPeriod_some {periods : List Period} {h : Nat} {p : Period}
   | none => simp [hf] at hc
   | some q =>
     simp [hf] at hc
-    exact ⟨q, List.mem_of_find?_eq_some hf, List.find?_some hf, hc.symm⟩
+    exact ⟨q, List.mem_of_find?_eq_some hf, List.find?_some (p := fun p => inRange p h) hf, hc.symm⟩
 
 /-- a normalised period of the envelope that contains the height -/
 structure CurOK (p : Period) (h : Nat) : Prop where
@@ -88,6 +88,36 @@ theorem len_compute {p : Period} (h1 : p.start ≤ p.stop) (h2 : p.stop < 2 ^ 62
 
 theorem share_le_alloc (p : Period) : share p ≤ p.alloc := Nat.div_le_self _ _
 
+theorem calc_compute {p : Period} {h : Nat} (hok : CurOK p h) : calcBlockDistribution p = .ok (share p) := by
+  have hlen := len_compute (p := p) (by have := hok.lo; have := hok.hi; omega) hok.s62
+  unfold calcBlockDistribution Uint.quo share
+  rw [hlen]
+  have : ¬ (p.stop - p.start + 1 = 0) := by omega
+  rw [if_neg this]
+
+theorem add_compute {p : Period} {h accu : Nat} (fix : Bool) (hok : CurOK p h) (hacc : accu < 2 ^ 255) :
+    Uint.add (accuIn fix p h accu) (share p) = .ok (accuIn fix p h accu + share p) := by
+  have hai : accuIn fix p h accu ≤ accu := by unfold accuIn; split <;> omega
+  unfold Uint.add Uint.chk two256
+  have := share_le_alloc p
+  have := hok.a200
+  have : accuIn fix p h accu + share p < 2 ^ 256 := by omega
+  rw [if_pos this]
+
+theorem dist_compute {p : Period} {h : Nat} (hok : CurOK p h) :
+    isDistBlock h p.start p.mod = .ok (decide ((h - p.start) % p.mod = 0)) :=
+  isDistBlock_compute hok.lo (by have := hok.lo; have := hok.hi; have := hok.s62; omega) hok.m1 hok.m62
+
+theorem endBlockActive_compute (fix : Bool) {h accu : Nat} (e : Env) {p : Period}
+    (hok : CurOK p h) (hacc : accu < 2 ^ 255) :
+    endBlockActive fix p h accu e =
+      .ok (finish (decide ((h - p.start) % p.mod = 0)) (accuIn fix p h accu + share p) e) := by
+  unfold endBlockActive
+  rw [dist_compute hok, calc_compute hok]
+  simp only
+  rw [add_compute fix hok hacc]
+
+
 /-- the reward part of the EndBlocker, computed, inside the envelope (no panic) -/
 theorem endBlock_compute (fix : Bool) {periods : List Period} {h accu : Nat} (e : Env) {p : Period}
     (hc : currentPeriod periods h = some p) (hok : CurOK p h) (ha : p.alloc ≠ 0) (hacc : accu < 2 ^ 255) :
@@ -95,22 +125,9 @@ theorem endBlock_compute (fix : Bool) {periods : List Period} {h accu : Nat} (e 
       .ok (finish (decide ((h - p.start) % p.mod = 0)) (accuIn fix p h accu + share p) e) := by
   unfold endBlock
   rw [hc]
-  simp only [ha, if_false]
-  have hlen := len_compute (p := p) (by have := hok.lo; have := hok.hi; omega) hok.s62
-  rw [isDistBlock_compute hok.lo (by have := hok.lo; have := hok.hi; have := hok.s62; omega) hok.m1 hok.m62]
-  have hq : calcBlockDistribution p = .ok (share p) := by
-    unfold calcBlockDistribution Uint.quo share
-    rw [hlen]
-    have : ¬ (p.stop - p.start + 1 = 0) := by omega
-    rw [if_neg this]
-  have hai : accuIn fix p h accu ≤ accu := by unfold accuIn; split <;> omega
-  have hadd : Uint.add (accuIn fix p h accu) (share p) = .ok (accuIn fix p h accu + share p) := by
-    unfold Uint.add Uint.chk two256
-    have := share_le_alloc p
-    have := hok.a200
-    have : accuIn fix p h accu + share p < 2 ^ 256 := by omega
-    rw [if_pos this]
-  simp only [hq, hadd, bind, Except.bind, pure, Except.pure]
+  simp only
+  rw [if_neg ha]
+  exact endBlockActive_compute fix e hok hacc
 
 theorem endBlock_idle_none (fix : Bool) {periods : List Period} {h accu : Nat} (e : Env)
     (hc : currentPeriod periods h = none) : endBlock fix periods h accu e = .ok (accu, 0) := by
